@@ -337,7 +337,8 @@ class C03(Check):
     assumptions = ["behaviour = printed lines for p in (0,1,2), exception types included (UnboundLocalError == NameError)",
                    "programs are deterministic and terminate; a run that exceeds 2 s counts as a behaviour difference"]
     chunksize = 2
-    budget_quick = 200
+    budget_quick = 450
+    budget_thorough = 1200
 
     def bound_text(self, tier):
         return "n=2 atoms per body, all regions and options" if tier == "quick" else "n=3 atoms per body (function host), n=2 (method host)"
